@@ -10,7 +10,7 @@ META = {
              "iterations; each decoded field moves the position strictly forward, so decoding finishes within |input| fields "
              "(the model's fuel |input|+1 is never exhausted); no panic, allocation-failure or stack-overflow outcome is "
              "reachable; a length-delimited field longer than the remaining input makes the decode fail. Witness lemmas refute "
-             "each of these for the code before the five fix commits (F1, F2, F38a, F38b, F38c). The model is tied to the code by "
+             "each of these for the code before the six fix commits (F1, F2, F38a, F38b, F38c, F38d). The model is tied to the code by "
              "running ModelProto::parse_buf, parse_file and is_onnx_model and the model on the same inputs (release and debug "
              "builds) and comparing outcome, error kind and a summary of the decoded top-level message inside Coq; constants, "
              "fix markers and the onnx.rs field dispatch tables are re-extracted from the Rust source on every run."),
@@ -26,7 +26,7 @@ REQ = "From RV Require Import Prelude.\nFrom Proto Require Import Pins Model.\nO
 THEOREMS = ["C38_read_varint_terminates", "C38_position_strictly_increases", "C38_parse_terminates",
             "C38_no_panic", "C38_len_exceeds_input_is_error", "C38_decode_total",
             "C38_F1_refuted", "C38_F2_release_refuted", "C38_F2_debug_refuted", "C38_F38a_refuted",
-            "C38_F38b_refuted", "C38_F38c_refuted", "C38_nonvacuous"]
+            "C38_F38b_refuted", "C38_F38c_refuted", "C38_F38d_refuted", "C38_nonvacuous"]
 
 VARINT = "rten-onnx/src/protobuf/varint.rs"
 VALUE = "rten-onnx/src/protobuf/value.rs"
@@ -125,6 +125,7 @@ PINS = [
                                                                   "self.inner.seek_relative(offset - 1)?")),
     vf.Pin("MAX_PREALLOC", VALUE, WHOLE, conv=_const_expr("MAX_PREALLOC")),
     vf.Pin("MAX_DEPTH", FIELD, WHOLE, conv=_const_expr("MAX_DEPTH")),
+    vf.Pin("PACKED_LEN_MISMATCH", FIELD, WHOLE, "bool", conv=_flag("if !reader.at_end() {", "ErrorKind::FieldLengthMismatch")),
     vf.Pin("ONNX_SCHEMA", ONNX, WHOLE, "list (N * list (N * N))", conv=_schema),
     vf.Pin("MSG_MODEL", ONNX, WHOLE, conv=_msg_id("ModelProto")),
     vf.Pin("MSG_SLIM", ONNX, WHOLE, conv=_msg_id("SlimModelProto")),
